@@ -5,7 +5,7 @@ import RP.Model.Showdown
 ply.rs, cards/board.rs, cards/street.rs), function by function.
 
 * `Chips = i16` is modelled by `Int`; the range facts (`0 ≤ x ≤ 2·STACK ≤ 32767`) are part of
-  the invariant `GameInv` (file `RP/Props/C02.lean`), so wrap-around is excluded by proof.
+  the invariant `GameInv` (file `RP/Lemmas/Game.lean`), so wrap-around is excluded by proof.
 * Card sets (`Hole`, `Board`, `Hand`) are `Nat` bitmasks (bit `c` = card `c`), `u64` words.
 * `seats: [Seat; N]` is unrolled to the two fields `s0`, `s1`; `RP.Gen.N = 2` is re-checked by
   `n_eq` below (the build breaks when `N` changes). All iterator pipelines over `self.seats`
@@ -19,8 +19,8 @@ ply.rs, cards/board.rs, cards/street.rs), function by function.
   pairwise disjoint, the actor always has chips behind).
 * `next_player`'s inner `loop` gets fuel `N`: after `N` increments every seat has been looked
   at, so if no seat is `Betting` the Rust loop would spin forever; the model then stops with the
-  ticker advanced `N` times. `C02.advance_once` proves that in every reachable state the loop
-  body runs exactly once.
+  ticker advanced `N` times. `RP.Game.nextPlayer_eq` (Lemmas/Game.lean), used by every `inv_*`
+  transition lemma, proves that in every reachable state the loop body runs exactly once.
 * `legal()` at a chance node contains the *random* `Draw(self.deck().deal(street))`; the model
   takes the dealt cards as a parameter (`legal g deal`). `is_allowed` only consults `legal()` for
   `Fold/Check/Call/Shove`, for which that entry never matters.
